@@ -14,8 +14,14 @@ class TLCError(Exception):
     """Infrastructure failure (never a property violation)."""
 
 
-def _java(xmx, gc='-XX:+UseSerialGC'):
-    return ['java', gc, '-Xmx' + xmx, '-Xss64m', '-cp', CP, 'tlc2.TLC']
+def _java(xmx, gc='-XX:+UseSerialGC', tmpdir=None):
+    # TLC unpacks its standard modules into java.io.tmpdir on every start and never removes them:
+    # point it into the run's scratch directory, which is deleted when the check ends
+    j = ['java', gc, '-Xmx' + xmx, '-Xss64m']
+    if tmpdir:
+        os.makedirs(tmpdir, exist_ok=True)
+        j.append('-Djava.io.tmpdir=' + tmpdir)
+    return j + ['-cp', CP, 'tlc2.TLC']
 
 
 _gen = re.compile(r'(\d+) states generated, (\d+) distinct states found')
@@ -30,7 +36,7 @@ def model_check(module, cfg_text, scratch, tag, workers=4, timeout=1500, xmx='6g
     cfg = os.path.join(scratch, tag + '.cfg')
     with open(cfg, 'w') as f:
         f.write(cfg_text)
-    cmd = _java(xmx, '-XX:+UseParallelGC') + ['-workers', str(workers), '-metadir', md, '-config', cfg] + list(extra_args) + [module + '.tla']
+    cmd = _java(xmx, '-XX:+UseParallelGC', os.path.join(scratch, 'jtmp')) + ['-workers', str(workers), '-metadir', md, '-config', cfg] + list(extra_args) + [module + '.tla']
     t0 = time.time()
     try:
         p = subprocess.run(cmd, cwd=SPEC, stdout=subprocess.PIPE, stderr=subprocess.STDOUT,
@@ -65,7 +71,7 @@ def validate_trace(module, trace_path, scratch, tag, timeout=1800, xmx='3g', cfg
     md = os.path.join(scratch, 'md_' + tag)
     os.makedirs(md, exist_ok=True)
     cfg = os.path.join(SPEC, (cfg_name or module) + '.cfg')
-    cmd = _java(xmx) + ['-workers', '1', '-metadir', md, '-config', cfg, module + '.tla']
+    cmd = _java(xmx, tmpdir=os.path.join(scratch, 'jtmp')) + ['-workers', '1', '-metadir', md, '-config', cfg, module + '.tla']
     env = dict(os.environ)
     env['TRACE'] = trace_path
     if env_extra:
